@@ -368,6 +368,10 @@ pub struct XlsBook {
     pub trailing: Vec<u8>,
     /// name of the stream in the compound file ("Workbook"; "Book" for BIFF5-style files)
     pub stream_name: String,
+    /// physical order of the sheet substreams in the stream (a permutation of the sheet indices); `None` = tab
+    /// order. The BOUNDSHEET8 records stay in tab order, each with the offset of its own substream (legal: a tab
+    /// moved without rewriting the stream) — shared knob for C14 / C16
+    pub substream_order: Option<Vec<usize>>,
 }
 
 impl Default for XlsBook {
@@ -394,6 +398,7 @@ impl XlsBook {
             globals_tail: vec![],
             trailing: vec![],
             stream_name: "Workbook".into(),
+            substream_order: None,
         }
     }
 
@@ -532,20 +537,33 @@ impl XlsBook {
         let subs: Vec<Vec<u8>> = self.sheets.iter().map(|s| s.substream(rng)).collect();
         let names: Vec<Vec<u8>> = self.sheets.iter().map(|s| short_xl_unicode_string(&s.name, s.name_wide, rng)).collect();
         let glen = head.len() + names.iter().map(|n| 4 + 6 + n.len()).sum::<usize>() + tail.len();
-        let mut out = head;
+        // physical order of the substreams behind the globals (lbPlyPos is only a pointer)
+        let order: Vec<usize> = match &self.substream_order {
+            Some(o) => {
+                let mut seen = vec![false; subs.len()];
+                assert!(o.len() == subs.len() && o.iter().all(|i| *i < subs.len() && !std::mem::replace(&mut seen[*i], true)), "substream_order must be a permutation");
+                o.clone()
+            }
+            None => (0..subs.len()).collect(),
+        };
+        let mut offset = vec![0usize; subs.len()];
         let mut pos = glen;
-        for ((sh, n), sub) in self.sheets.iter().zip(&names).zip(&subs) {
-            let mut d = (pos as u32).to_le_bytes().to_vec();
+        for i in &order {
+            offset[*i] = pos;
+            pos += subs[*i].len();
+        }
+        let mut out = head;
+        for ((sh, n), off) in self.sheets.iter().zip(&names).zip(&offset) {
+            let mut d = (*off as u32).to_le_bytes().to_vec();
             d.push(sh.visible);
             d.push(sh.kind);
             d.extend_from_slice(n);
             out.extend(rec(BOUNDSHEET, &d));
-            pos += sub.len();
         }
         out.extend(tail);
         debug_assert_eq!(out.len(), glen);
-        for sub in subs {
-            out.extend(sub);
+        for i in &order {
+            out.extend(subs[*i].iter());
         }
         out.extend_from_slice(&self.trailing);
         out
